@@ -262,6 +262,31 @@ def run(ctx):
                 continue
             # ---- histories over the bundled-family schemas
             history(info, d, docs, None, rng.randint(1, 12))
+            # aimed: two marks of one non-self-excluding type on one text, one of them removed / re-added
+            multi = [t for t in schema.marks.values() if t.spec.get("excludes") == "" and t.attrs]
+            if multi and rng.random() < 0.5:
+                mt = rng.choice(multi)
+                tbs = [t for t in schema.nodes.values() if t.is_textblock and t.allows_mark_type(mt)
+                       and schema.top_node_type.content_match.match_type(t) is not None]
+                if tbs:
+                    an = list(mt.attrs)[0]
+                    m1, m2 = mt.create({an: 1}), mt.create({an: 2})
+                    tb = rng.choice(tbs)
+                    dd = outcome(lambda: schema.top_node_type.create_and_fill(None, [tb.create(None, [schema.text("ab", [m1, m2]), schema.text("c")])]))
+                    if dd[0] == "ok" and dd[1] is not None and outcome(dd[1].check)[0] == "ok":
+                        trm = Transform(dd[1])
+                        r0 = dd[1].resolve(1)
+                        s0 = r0.start(r0.depth) if r0.depth else 1
+                        outcome(lambda: trm.remove_mark(s0, s0 + 2, rng.choice([m1, m2])) if rng.random() < 0.5 else trm.add_mark(s0, s0 + 3, m1))
+                        ctx.count("aimed-same-type-marks")
+                        for k, s_ in enumerate(trm.steps):
+                            nxt = trm.docs[k + 1] if k + 1 < len(trm.docs) else trm.doc
+                            sti, inv_ = outcome(lambda: s_.invert(trm.docs[k]))
+                            stb, back = outcome(lambda: inv_.apply(nxt)) if sti == "ok" else ("internal", None)
+                            if stb != "ok" or back.doc is None or not back.doc.eq(trm.docs[k]):
+                                ctx.violation("history-undo", "applying the inverted steps in reverse order does not restore the starting document",
+                                              {"schema": info.name, "doc": dd[1].to_json(), "ops": ["aimed same-type marks"], "steps": [x.to_json() for x in trm.steps],
+                                               "culprit": k, "step": s_.to_json(), "culprit_doc": trm.docs[k].to_json(), "detail": "order of same-type marks"})
             # mark-only histories (wide ranges over mixed marked / unmarked inline content)
             if schema.marks:
                 for _ in range(2):
